@@ -288,8 +288,14 @@ func (c *converter) syncPartial() {
 // here and removed before parse the added ingress which will readd such hosts
 // and backs
 func (c *converter) trackAddedIngress() {
-	for _, ing := range append(c.changed.IngressesAdd, c.changed.IngressesUpd...) {
-		name := ing.Namespace + "/" + ing.Name
+	for _, evt := range append(c.changed.IngressesAdd, c.changed.IngressesUpd...) {
+		name := evt.Namespace + "/" + evt.Name
+		// track what is going to be synchronized: the object of the
+		// event can be older than the one syncPartial reads from the cache
+		ing, err := c.cache.GetIngress(name)
+		if err != nil {
+			continue
+		}
 		if ing.Spec.DefaultBackend != nil {
 			backend := c.findBackend(ing.Namespace, ing.Spec.DefaultBackend)
 			if backend != nil {
